@@ -474,3 +474,11 @@ pub fn replay(kind: &str, case: &J, rec: &mut Rec) -> Verdict {
         _ => Verdict::fail("infra:unknown-kind", kind),
     }
 }
+
+/// entry points for the coverage-guided targets
+pub fn zinc_fixed_point_pub(text: &str, rec: &mut Rec) -> Verdict {
+    zinc_fixed_point(text, rec)
+}
+pub fn hayson_fixed_point_pub(text: &str, rec: &mut Rec) -> Verdict {
+    hayson_fixed_point(text, rec)
+}
